@@ -86,6 +86,55 @@ def classify(c, g, l):
     return "mismatch", "results differ"
 
 
+def _wrap_tables(q):
+    """the same query for the Wrapped() option: every document table `t` becomes `root.t` (CTE names, `dual` and
+    backward-navigating tables make the query unsuitable -> None)"""
+    import copy
+    ctes = set()
+
+    def collect(n):
+        if isinstance(n, list):
+            if n and n[0] in ("select", "union") and isinstance(n[1], list):
+                for c in n[1]:
+                    if isinstance(c, list) and len(c) == 2 and isinstance(c[0], str):
+                        ctes.add(c[0])
+            for x in n:
+                collect(x)
+    collect(q)
+    q2 = copy.deepcopy(q)
+    ok = [True]
+
+    def walk(n):
+        if not isinstance(n, list):
+            return
+        if n and n[0] == "table" and isinstance(n[1], list):
+            path = n[1]
+            if not path or path[0] in ("<-", "dual") or path[0] in ctes:
+                if path and path[0] != "dual" and path[0] not in ctes:
+                    ok[0] = False
+                if path and path[0] == "dual":
+                    ok[0] = False
+                return
+            alias = n[2]
+            n[1] = ["root"] + path
+            n[3] = alias if alias else "root"
+            if isinstance(n[-1], dict):
+                n[-1]["bt"] = True
+            else:
+                n.append({"bt": True})
+            return
+        if n and n[0] in ("tablesel", "selc"):
+            ok[0] = False
+            return
+        if n and n[0] == "col" and isinstance(n[1], list) and n[1] and n[1][0] == "<-":
+            ok[0] = False
+            return
+        for x in n:
+            walk(x)
+    walk(q2)
+    return q2 if ok[0] else None
+
+
 def context_variants(cases, seed):
     """Statement-position and repetition variants of a sample of the cases (about 1 in 10): the same query as a CTE body
     read through `SELECT *`, as both branches of a UNION ALL, and simply repeated later in the same process.  Defects that
@@ -98,7 +147,9 @@ def context_variants(cases, seed):
         if c.get("q") is None or c["mode"] not in ("seq", "multiset") or rnd.random() > 0.1:
             continue
         q = c["q"]
-        kind = rnd.choice(["cte", "union", "repeat"])
+        kind = rnd.choice(["cte", "union", "repeat", "wrapped"])
+        if kind == "wrapped" and (c.get("wrapped") or _wrap_tables(q) is None):
+            kind = "repeat"
         if kind == "union" and not (q[0] == "select" and not q[1] and not q[8] and q[9] is None and q[10] is None):
             kind = "cte"       # a UNION branch cannot carry its own WITH / ORDER BY / LIMIT without parentheses
         # only the generic fields: what a property attaches for its own post-processing (staged evaluation, textbook
@@ -110,6 +161,9 @@ def context_variants(cases, seed):
                   [], ["bool", True], [], None, None, {}]
         elif kind == "union":
             q2 = ["union", [], copy.deepcopy(q), copy.deepcopy(q), False, [], None, None, {}]
+        elif kind == "wrapped":
+            q2 = _wrap_tables(q)
+            c2["wrapped"] = True
         else:
             q2 = q
         try:
@@ -131,7 +185,8 @@ def run_cases(chk, cases, nontrivial=None, known_switch_ids=None, label="", vari
         extra = context_variants(cases, len(cases) * 7919 + chk.seed)
         chk.cov["context_variants"] = chk.cov.get("context_variants", 0) + len(extra)
         chk.cov["context_variants_rule"] = ("about 1 in 10 generated queries is additionally run as a CTE body read through SELECT *, "
-                                            "as both branches of a UNION ALL, or simply a second time in the same process")
+                                            "as both branches of a UNION ALL, under Wrapped() with every table addressed as root.<table>, "
+                                            "or simply a second time in the same process")
         cases = list(cases) + extra
     gos = run_go([go_req(c) for c in cases])
     leans = run_lean([lean_req(c) for c in cases])
